@@ -116,6 +116,8 @@ func init() {
 		x.Add(&Family{Name: "download-account-root", Quick: 12, Thor: 120, Run: runC08AccountRoot})
 		x.Add(&Family{Name: "download-port", Quick: 6, Thor: 48, Run: runC08Port})
 		x.Add(&Family{Name: "download-stats-polled", Quick: 8, Thor: 64, Run: runC08StatsPolled})
+		// wave e (c08_ambig.go): names whose Mac Roman wire bytes are also well-formed UTF-8, with decoys of the other reading
+		x.Add(&Family{Name: "download-ambiguous-names", Quick: 12, Thor: 120, Run: runC08Ambiguous})
 	}
 }
 
